@@ -132,6 +132,7 @@ type Engine struct {
 	steps       int
 	depth       int
 	goroutines  []deferred
+	inGoroutine int
 	inputs      []*inputInfo
 	inputByName map[string]*inputInfo
 	mapOrderCtr int
@@ -664,6 +665,7 @@ func (e *Engine) runPath(prefix []Dec) (end pathEnd) {
 	e.steps = 0
 	e.depth = 0
 	e.goroutines = nil
+	e.inGoroutine = 0
 	e.inputs = nil
 	e.inputByName = map[string]*inputInfo{}
 	e.mapOrderCtr = 0
